@@ -10,9 +10,11 @@ open HgVerif.Sched
 
 structure Flow (S : Type) where
   n : Nat
-  /-- active producers of node `i` (node ids) -/
+  /-- active producers of node `i` (node ids): a write of one of them schedules `i` -/
   prods : Nat → List Nat
-  /-- node `i`'s user code: reads the global state (frame condition: only its producers and itself),
+  /-- every node whose output `i` may READ: the active producers and the passive ones -/
+  reads : Nat → List Nat
+  /-- node `i`'s user code: reads the global state (frame condition: only what `reads` lists and itself),
       returns its new own state and whether it wrote its output -/
   f : Nat → (Nat → S) → Time → S × Bool
   /-- future wake-ups the node asks for itself -/
